@@ -1194,11 +1194,20 @@ func (hv *Hash) String() string {
 	return px.ToString2(hv, None)
 }
 
+// ToKey writes the keys of the entries in sorted order since hashes with the same entries are equal
+// regardless of the order of the entries.
 func (hv *Hash) ToKey(b *bytes.Buffer) {
 	b.WriteByte(0)
 	b.WriteByte(HkHash)
-	for _, e := range hv.entries {
-		e.ToKey(b)
+	keys := make([]string, len(hv.entries))
+	for i, e := range hv.entries {
+		eb := bytes.NewBuffer([]byte{})
+		e.ToKey(eb)
+		keys[i] = eb.String()
+	}
+	sort.Strings(keys)
+	for _, k := range keys {
+		b.WriteString(k)
 	}
 	b.WriteByte(HkEnd)
 }
